@@ -9,7 +9,7 @@ Open Scope Z_scope.
 
 Lemma t_C10_header_fields : forall c helloLen plens k pn pnLen h fs lf pk dl ix rp,
   nth_error (flight c helloLen plens) k = Some (DG pn pnLen h fs lf pk dl ix rp) ->
-  pn = initialPN (c_ipn c) + Z.of_nat k /\
+  pn = c_first c + Z.of_nat k /\
   pnLen = peekPnLen (c_lens c) (c_single c) (pnBase (c_ipn c)) pn /\
   h = 1 + 4 + 1 + c_dcid c + 1 + c_scid c + pnLen + 2 + (vlen (c_tokLen c) + c_tokLen c) /\
   lf = pnLen + (pk - h - 16) + 16 /\
@@ -31,6 +31,20 @@ Lemma t_C10_pn_len_list : forall lens single ipn i,
   lens <> [] -> 0 <= ipn <= 2 ^ 62 - 1 -> Z.of_nat i < 2 ^ 62 ->
   peekPnLen lens single (pnBase ipn) (initialPN ipn + Z.of_nat i) = nth (Nat.min i (length lens - 1)) lens 0.
 Proof. exact peekPnLen_list. Qed.
+
+Lemma t_C10_pn_len_across_recreation : forall c helloLen plens k k0 pn pnLen h fs lf pk dl ix rp,
+  nth_error (flight c helloLen plens) k = Some (DG pn pnLen h fs lf pk dl ix rp) ->
+  c_lens c <> [] -> 0 <= c_ipn c <= 2 ^ 62 - 1 -> c_first c = c_ipn c + Z.of_nat k0 ->
+  Z.of_nat (k0 + k) < 2 ^ 62 ->
+  pn = c_ipn c + Z.of_nat (k0 + k) /\
+  pnLen = nth (Nat.min (k0 + k) (length (c_lens c) - 1)) (c_lens c) 0.
+Proof. exact flight_pn_len_recreated. Qed.
+
+Lemma t_C10_pn_len_across_recreation_example :
+  flight {| c_dcid := 8; c_scid := 0; c_ipn := 1; c_first := 3; c_lens := [1; 2]; c_single := 0; c_tokLen := 0;
+            c_bk := BPass; c_plans := []; c_udpMin := 0; c_maxSize := 1280 |} 1734 [] =
+  [DG 3 2 20 [(0, 1240)] 1262 1280 1280 1 false; DG 4 2 20 [(1240, 494)] 517 535 1200 2 false].
+Proof. exact recreated_witness. Qed.
 
 Lemma t_C10_pn_len_single_default : forall single base pn,
   (single <> 0 -> peekPnLen [] single base pn = single) /\ 2 <= peekPnLen [] 0 base pn <= 4.
@@ -260,7 +274,7 @@ Lemma t_C10_decryptable :
     (forall pn kp ad p, length (aead_seal pn kp ad p) = (length p + 16)%nat) ->
     forall c helloLen plens k pn pnLen h fs lf pk dl ix rp (mid payload : list Z) largest,
       nth_error (flight c helloLen plens) k = Some (DG pn pnLen h fs lf pk dl ix rp) ->
-      1 <= pnLen <= 4 -> pn < 2 ^ 62 -> 0 <= c_ipn c < 2 ^ 64 ->
+      1 <= pnLen <= 4 -> pn < 2 ^ 62 -> 0 <= c_first c ->
       Z.of_nat (length payload) = pk - h - 16 -> payload <> [] ->
       4 <= pnLen + Z.of_nat (length payload) ->
       (largest = pn - 1 \/ (largest = -1 /\ pn <= 2 ^ (pnLen * 8) / 2)) ->
@@ -296,7 +310,7 @@ Lemma t_C10_server_reads_back :
       (ver = H_Version1 \/ ver = H_Version2) ->
       zlen dcid = c_dcid c -> zlen scid = c_scid c -> zlen token = c_tokLen c ->
       zlen dcid <= 20 -> zlen scid <= 20 ->
-      1 <= pnLen <= 4 -> pn < 2 ^ 62 -> 0 <= c_ipn c < 2 ^ 64 ->
+      1 <= pnLen <= 4 -> pn < 2 ^ 62 -> 0 <= c_first c ->
       zlen payload = pk - h - 16 -> payload <> [] -> 4 <= pnLen + zlen payload ->
       (largest = pn - 1 \/ (largest = -1 /\ pn <= 2 ^ (pnLen * 8) / 2)) ->
       let hb := initialHeaderBytes ver dcid scid token lf pn pnLen in
